@@ -964,6 +964,8 @@ func runC12(w *World, r *Report) {
 
 	shareRule(w, r, "C12.decoded-channel-taken-whole", "what was decoded of a channel is what the run continues with: load copies every exported field of the decoded channel (the bytes are right, the restored value must be too)", 8, "C05", "C05.channel-state")
 
+	shareRule(w, r, "C12.written-is-what-was-there", "the checkpoint handed to the store is the one the interrupt handlers assembled: no entry of its tables is deleted on the way (a channel without a pending value still carries state)", 0, "C05", "C05.nothing-dropped-at-save")
+
 	r.Rule("C12.read-errors-kept", "in internal/serialization and on compose's checkpoint read/write path a success return after an error-yielding call is reached only where that error was tested nil: bytes that cannot be decoded are an error, never 'nothing stored' (shared with C05.load-errors-kept / C13.no-dropped-error)", 1)
 	{
 		nf := 0
